@@ -159,6 +159,28 @@ def check_cb_fp(ctx):
     ctx.expect(paths, ret=2)
 
 
+def check_bm_after_dead_cast(ctx):
+    size = 1 << 32
+    bx = ctx.sandbox_base(32, "bx", aligned=False)
+    by = ctx.sandbox_base(32, "by", aligned=False)
+    cellx = ctx.sym("cellx", 64)
+    celly = ctx.sym("celly", 64)
+    how = ctx.sym("how", 32)
+    ctx.assume(z3.ULE(how, 2))
+    ctx.assume(z3.UGE(cellx, bx), z3.ULE(cellx - bx, BV(size - 4, 64)), z3.UGE(celly, by), z3.ULE(celly - by, BV(size - 4, 64)))
+    mem0 = ctx.eng.initial_memory()
+    rep = z3.Concat(*[z3.Select(mem0, celly + BV(i, 64)) for i in reversed(range(4))])
+    paths = ctx.run("k_bm_after_dead_cast", [bx, by, cellx, celly, how])
+    for q in paths:
+        if q.status == "ret":
+            lg = [e for e in q.user["log"] if e[0] == 1][0]
+            now = lg[1] if not isinstance(lg[1], int) else BV(lg[1], 64)
+            ctx.require(q, z3.And(q.ret == z3.If(rep == 0, BV(0, 64), by + zext(rep, 64)), now == zext(rep, 64)),
+                        "a cast of a sandbox-resident pointer yields the designated value of the live sandbox (a destroyed sandbox object is never consulted) and leaves the cell unchanged")
+    ctx.only(paths, "ret", "abort")
+    ctx.expect(paths, ret=3)
+
+
 def jobs(tier, seed):
     src = '#include "verif_sandbox.hpp"\nusing S = B32;\n#include "C20_kernels.inc"\n'
     items = [dict(name="opaque roundtrip " + t, fn=check_opq, kw=dict(tag=t)) for t in OPQ]
@@ -173,6 +195,8 @@ def jobs(tier, seed):
     out.append(Job("C20_B64M_casts", src64, [dict(name="B64M cast " + k, fn=check_ptrcast, kw=dict(k=k, pb=8)) for k in ("k_rc_t", "k_rc_tv", "k_cc_t", "k_cc_tv", "k_sc_ptr_t", "k_sc_ptr_tv")], native=False))
     out.append(Job("C20_noop_cb_fp", '#include "C20_noop.inc"\n', [dict(name="noop callback with opaque double/int/float", fn=check_cb_fp, unwind=300)], flags=["-D_GLIBCXX_EXTERN_TEMPLATE=0"]))
     from specs import C03
+    out.append(Job("C20_BM_after_dead_cast", '#include "C04_bm.inc"\n', [dict(name="BM casts of a sandbox-resident pointer after another sandbox was destroyed", fn=check_bm_after_dead_cast)],
+                   unwind=200, native=False))
     for k in ("k_bm_cast_fnptrptr", "k_bm_scast_fnptrptr"):
         out.append(Job("C20_BM_" + k, '#include "C03_bm.inc"\n', [dict(name="BM cast of a sandbox-resident pointer to a function pointer " + k, fn=C03.check_bm_cell, kw=dict(k=k))], native=False))
     for to in SC_TYPES:
